@@ -58,7 +58,7 @@ def cases(tier, seed):
                 combos = [(b, p) for b in BASES for p in ('optimize', PASSES[i % len(PASSES)])]
         if c['fam'] in ('CONSTOP', 'DUP', 'MISC', 'EXPR', 'SEQ') and (tier != 'quick' or i % 3 == 0):
             extra = [('word', 'cse_thresh'), ('synth', 'cse_thresh'), ('word', 'optimize_nocheck'), ('word', 'unused_wires'),
-                     ('word', 'constprop_silent')]
+                     ('word', 'constprop_silent'), ('word', 'optimize_copy'), ('synth', 'optimize_copy')]
             combos = list(combos) + (extra if tier != 'quick' else [extra[i % len(extra)], extra[(i // 3) % len(extra)]])
         for j, (b, p) in enumerate(dict.fromkeys(combos)):
             d = dict(c, K=K, base=b, pas=p, scope=('both', 'explicit', 'implicit')[(i + j) % 3])
@@ -110,6 +110,9 @@ def apply_pass(case, blk, other=None):
             # non-default termination thresholds: fewer / more rounds, same behaviour
             P.common_subexp_elimination(blk, abs_thresh=case.get('abs', 0), percent_thresh=case.get('pct', 0.5))
             r = blk
+        elif p == 'optimize_copy':
+            # the non-updating form: the result is a new block, the given one stays as it is
+            r = pyrtl.optimize(update_working_block=False, **okw)
         elif p == 'optimize_nocheck':
             r = pyrtl.optimize(skip_sanity_check=True, **okw)
         elif p == 'unused_wires':
